@@ -1,10 +1,25 @@
 (* C05 - Values a column cannot represent are rejected, never silently altered. *)
-From Verif Require Import Conv Conv_proofs.
+From Verif Require Import Conv Conv_proofs SerializerTables SerTablesSpec.
 
 (* Full-strength statement (kept visible): on every serialization cell of the run the C01 oracle
    is evaluated inside Coq (accepted => the arrays decode to exactly interp(value); a value outside
    the documented mapping must be refused); the documented lossy cells (float narrowing, integer to
    float, decimal truncation to scale) are the ISkip cells of interp. *)
+
+(* tie to the source by translation (regenerated from /repo on every run): the typed requests the
+   integer and Boolean readers implement are exactly the requests the conversion model answers;
+   every other request falls through to the refusing default *)
+Definition req_methods : list (String.string * Req) :=
+  [("deserialize_i8", RInt I8); ("deserialize_i16", RInt I16); ("deserialize_i32", RInt I32); ("deserialize_i64", RInt I64);
+   ("deserialize_u8", RInt U8); ("deserialize_u16", RInt U16); ("deserialize_u32", RInt U32); ("deserialize_u64", RInt U64);
+   ("deserialize_bool", RBool); ("deserialize_char", RChar); ("deserialize_f32", RF32); ("deserialize_f64", RF64); ("deserialize_str", RStr)]%string.
+Definition reader_implements (reader m : String.string) : bool :=
+  match SerTablesSpec.lookup reader expected_reader_methods with Some ms => existsb (String.eqb m) ms | None => false end.
+Theorem C05_reader_methods_match_model :
+  reader_methods_ok = true /\
+  forallb (fun mr : String.string * Req => Bool.eqb (reader_implements "IntegerDeserializer" (fst mr)) (is_ok (conv_de_int (snd mr) 1))) req_methods = true /\
+  forallb (fun mr : String.string * Req => Bool.eqb (reader_implements "BoolDeserializer" (fst mr)) (is_ok (conv_de_bool (snd mr) true))) req_methods = true.
+Proof. repeat split; vm_compute; reflexivity. Qed.
 
 (* writing integers: exactly the pushed value is stored, or the push is an error - for every
    integer width of the value and of the column, every Z *)
